@@ -188,7 +188,7 @@ def mval(m, e):
 
 
 
-def agg_core(ck, name, queries, timeout_s=60, purify_all=False):
+def agg_core(ck, name, queries, timeout_s=60, purify_all=False, probe=None):
     """One obligation made of several path queries [(assumptions, negated_goal)], all of which must be unsat.
     Non-triviality is measured on the first query: its negated goal WITHOUT the code-derived assumptions must be satisfiable."""
     if not queries: return None, None
@@ -201,7 +201,9 @@ def agg_core(ck, name, queries, timeout_s=60, purify_all=False):
     st = 'unsat' if not bad else ('sat' if any(out[i][0] == 'sat' for i in bad) else 'unknown')
     nontriv = None
     g0 = list(queries[0][1])
-    if g0:
+    if probe is not None:
+        nontriv = check(purify(list(probe)) if purify_all else list(probe), min(timeout_s, 15))[0] == 'sat'
+    elif g0:
         pr = check(purify(g0) if purify_all else g0, min(timeout_s, 15))[0]
         nontriv = (pr == 'sat')
     else:
